@@ -61,6 +61,9 @@ namespace adept {
       index_ = new_index;
       
       n_allocated_operations_ = new_size;
+#ifdef RJHOGAN_ADEPT_2_VERIF
+      verif::buffer_log().event('G', new_size);
+#endif
     }
     
     // ... likewise for the statement stack
@@ -79,6 +82,9 @@ namespace adept {
       statement_ = new_statement;
       
       n_allocated_statements_ = new_size;
+#ifdef RJHOGAN_ADEPT_2_VERIF
+      verif::buffer_log().event('g', new_size);
+#endif
     }
 
   }
